@@ -8,7 +8,7 @@ PLANS = {
     "C05": {"twin": ["TwinBlocks", "TwinTaus"], "single": ["C05_FftSmooth"]},
     "C10": {"twin": ["TwinFull"], "single": []},
     "C11": {"twin": ["TwinChan", "TwinCtl"], "single": ["C11_MaskUntouched", "C03_CallOk"]},
-    "C16": {"twin": ["TwinFull"], "single": ["C16_Flush", "C16_VecForward"]},
+    "C16": {"twin": ["TwinFull"], "single": ["C16_Flush", "C16_VecForward", "C16_WrapperShape"]},
     "C17": {"twin": ["TwinCtl", "TwinNear"], "single": []},
     "C18": {"twin": ["TwinFull"], "single": []},
 }
